@@ -40,3 +40,4 @@ Theorem c10_core_never_fails : forall noise e s,
   exists g, analyze e false (r_stmt noise s) = Ok g.
 Proof. intros noise e s Hn He Hs Hq. destruct (analysis_succeeds_any_provider noise e s Hn He Hs Hq) as [g [H _]]. exists g. exact H. Qed.
 Print Assumptions c10_core_never_fails.
+
